@@ -878,7 +878,10 @@ class C19:
                   "violating accesses are listed and concurrent workloads run under the race detector to exhibit the race")
     level_note = ("partial: the translator is a trusted, approximate static analysis (lock sets per syntactic mutex expression; element writes "
                   "attributed to the field; aliasing through slices, maps and pointers handed out is not followed; channel, WaitGroup and Once "
-                  "ordering is not modelled - variables protected only by those would be reported, none is on this tree); four functions are "
+                  "ordering is not modelled - variables protected only by those would be reported, none is on this tree); structs without a mutex "
+                  "of their own (table entries such as vnet.mapping, udp.Conn) are audited against the mutexes of the owning type held at the "
+                  "access, which assumes an entry is reached only through the one object that owns it; the chunk types are messages whose "
+                  "ownership passes through channels and queues and are left to the race detector workloads; six functions are "
                   "declared set-up-only (tools/raceaudit/run.sh, justified in DESIGN.md); the theorem is about the abstract machine, whose link "
                   "to the Go memory model (mutex operations as the only synchronisation) is an assumption; netctx, connctx, replaydetector, xor "
                   "and test/ are outside the anchored files")
